@@ -206,3 +206,27 @@ def memcpy_alias(ctx, P, rule="MEMCPY-ALIAS", tus=("tables",), funcs=None):
                            "tsk_memcpy reads and writes the same column `%s`" % d)
                     k += 1
     return n
+
+
+def sorter_run(ctx, P, rule="ORDER-RUN"):
+    ctx.rule(rule, "tsk_table_sorter_run performs every sorting step unless exactly its documented skip condition holds: edges iff a "
+                   "sort_edges hook is set, migrations iff the migration table is non-empty, sites and mutations iff not skip_sites "
+                   "(the bookmark says they are already sorted) - no step depends on another table being non-empty")
+    tu = P.tus["tables"]
+    fn = P.need("tsk_table_sorter_run", "tables")
+    F = Facts(P, fn)
+    want = {"sort_edges": ["(self->sort_edges != NULL)"], "tsk_table_sorter_sort_migrations": ["(self->tables->migrations.num_rows > 0)"],
+            "tsk_table_sorter_sort_sites": ["!skip_sites"], "sort_mutations": ["!skip_sites"]}
+    found = {}
+    for x in walk(fn.body):
+        if x.k == "CallExpr":
+            nm = callee(x)
+            if nm is None:
+                f0 = strip(x.kids[0])
+                nm = f0.name if f0 is not None and f0.k == "MemberExpr" else None
+            if nm in want:
+                found[nm] = ([estr(i.kids[0]) for i, br in F.enclosing_ifs(x)], x)
+    for nm, w in want.items():
+        ent = found.get(nm)
+        ok = ent is not None and ent[0] == w
+        ctx.ob(rule, nm, ok, tu.loc(ent[1]) if ent else tu.loc(fn.node), "%s runs under %s (expected %s)" % (nm, ent[0] if ent else None, w))
